@@ -65,13 +65,13 @@ def random_identities(rng, n):
         return p
     for _ in range(n):
         name = rng.choice(names) if rng.random() < 0.7 else "".join(rng.choice("abcXYZ019._- ") for _ in range(rng.randint(1, 260)))
-        ports = rng.sample(["in", "in2", "a", "B", "zz"], rng.randint(0, 4))
+        ports = rng.sample(["in", "in2", "a", "B", "zz", "A", "b", "IN"], rng.randint(0, 4))      # incl. names equal up to case
         ins = tuple((p, mkpath()) for p in ports)
         subs = ()
         if rng.random() < 0.25:
             subs = tuple((p, mkpath(), tuple(mkpath() for _ in range(rng.randint(0, 3)))) for p in rng.sample(["j", "j2"], rng.randint(1, 2)))
-        params = tuple((k, rng.choice(segs)) for k in rng.sample(["p1", "p2", "alpha", "Z"], rng.randint(0, 3)))
-        tags = tuple((k, rng.choice(segs)) for k in rng.sample(["in.t", "z", "a.b"], rng.randint(0, 2)))
+        params = tuple((k, rng.choice(segs)) for k in rng.sample(["p1", "p2", "alpha", "Z", "z", "P1", "Alpha"], rng.randint(0, 3)))
+        tags = tuple((k, rng.choice(segs)) for k in rng.sample(["in.t", "z", "a.b", "Z", "IN.t", "A.b"], rng.randint(0, 3)))
         out.append((name, ins, subs, params, tags))
     return out
 
@@ -106,8 +106,10 @@ def run(rep, tier, seed):
                 break
         # (2) stable: same identity, maps filled in the opposite order, fresh process
         impl2, _ = vlib.run_lines("t2", "tempdir", [line(i, reverse=True) for i in ids])
-        for ident, a, b in zip(ids, impl, impl2):
-            if a != b:
+        impl3, _ = vlib.run_lines("t2", "tempdir", lines)
+        for ident, a, b, c in zip(ids, impl, impl2, impl3):
+            if a != b or a != c:
+                b = b if a != b else c
                 rep.violation("temp dir of one task identity differs between two evaluations", {"kind": "unstable", "identity": repr(ident), "first": unhx(a), "second": unhx(b) if b != "<FAIL>" else b, "input_line": line(ident)})
                 found = True
                 break
